@@ -120,6 +120,34 @@ def run(tier):
             for kind, w in arggen.sub_mutations(g, cfg, line):
                 acts.append(eval_action(w, mode="groups", tag={"k": "mut", "m": kind}))
         blocks.append((cfg, acts))
+    # a command-mode argument ends the evaluation of the words, not the checks: the rules of every member that are judged at the
+    # end of the command line (mandatory, lower cardinality bounds, requirements, handler constraints) hold as in a single handler.
+    # Lines: a valid line with the command use, and the same line with one of the other uses left out (TLC says what must happen)
+    ndrop = 0
+    for k in range(40 if tier == "quick" else 1000):
+        ngrp = g.r.randint(2, 3)
+        cfg = None
+        for _ in range(30):
+            cfg = g.cfg(nargs=g.r.randint(2, 5), constraints=True, groups=ngrp, cmd=g.r.choice(["key", "pos"]), exclude=arggen.GROWBITS)
+            if any(a["mand"] or a["req"] or a["card"]["t"] in ("exact", "range") for a in cfg["args"] if a.get("vm") != "cmd") or cfg["hcons"]:
+                break
+        acts = []
+        for _ in range(nlines):
+            line = gen_valid(g, cfg)
+            if line is None:
+                continue
+            words = g.spell_line(cfg, line)
+            if words is None:
+                continue
+            acts.append(eval_action(words, mode="groups", tag={"k": "line", "line": line_json(line)}))
+            for d in range(len(line)):
+                if cfg["args"][line[d][0] - 1].get("vm") == "cmd":
+                    continue
+                w = g.spell_line(cfg, line[:d] + line[d + 1:])
+                if w is not None:
+                    acts.append(eval_action(w, mode="groups", tag={"k": "mut", "m": "use_left_out"})); ndrop += 1
+        blocks.append((cfg, acts))
+    c.notes.append("T (command mode and end-of-line rules): %d lines with one use left out" % ndrop)
     # key tables with collisions spread over the members
     stems = ["in", "input", "out", "output", "v", "verbose", "num"]
     for _ in range(150 if tier == "quick" else 3000):
